@@ -80,6 +80,7 @@ def run(c, chk, alloc_failure=False):
     aggregate_copy_rule(c, chk, ex)
     freecb_rule(c, chk, ex)
     include_rule(c, chk, ex)
+    realloc_to_nothing(c, chk, ex)
 
 
 OWNER_FIELDS = {('cfg_t', 'name'), ('cfg_t', 'title'), ('cfg_t', 'filename'), ('cfg_t', 'comment'), ('cfg_t', 'opts'),
@@ -594,3 +595,49 @@ def unwinder_conditional(c, unwinders):
             if last is True:
                 return f, p
     return None
+
+
+def realloc_to_nothing(c, chk, ex):
+    """R7.7: realloc(p, 0) releases p and returns NULL: where the requested size can be zero, a NULL result must not be
+    read as "nothing happened, p is still mine" """
+    from .. import bufsize
+    chk.rule('R7.7', 'a NULL result of realloc() is taken for a failure (old block still owned) only where the requested size cannot be zero')
+    n = 0
+    for f in c.confuse.funcs.values():
+        if f.name in c.unknown_funcs or not any(True for _ in c.deep_calls(f, 'realloc')):
+            continue
+        bad = None
+        for p in ex.explore(f):
+            if p.end != 'ret':
+                continue
+            for i, e in enumerate(p.events):
+                if not (e.kind == 'call' and e.name == 'realloc'):
+                    continue
+                n += 1
+                isnull = any((lambda na: na is not None and na[0] == e.res and na[1] is True)(fp_is_null(cn, t)) for cn, t, _ in p.assume)
+                if not isnull:
+                    continue
+                size = bufsize.lin(e.args[1])
+                may_zero = size is None or (size.const <= 0 and not any((lambda na: na is not None and sym.norm(na[0]) == sym.norm(e.args[1]) and na[1] is False)(fp_is_null(cn, t))
+                                                                     for cn, t, _ in p.assume))
+                if size is not None and size.const <= 0 and all(cf > 0 for cf in size.terms.values()):
+                    # every term is a count that can be 0
+                    pass
+                if not may_zero:
+                    continue
+                old = e.args[0]
+                if old[0] == 'ld' and old[1][0] == 'fld':
+                    rewritten = any(x.kind == 'store' and sym.norm(x.addr) == sym.norm(old[1]) for x in p.events[i + 1:])
+                    if not rewritten:
+                        bad = bad or (e, old)
+        if bad:
+            e, old = bad
+            chk.fail('R7.7', 'realloc-zero:%s' % f.name, c.where(e.ins), '%s(): realloc(%s, %s) can be asked for 0 bytes, which releases the block and returns NULL; the NULL is '
+                     'taken for a failure and %s keeps pointing to the released block (double free on the next use)' % (f.name, sym.render(old), sym.render(e.args[1]), sym.render(old[1])))
+    chk.ok('R7.7', '%d realloc() call paths' % n, 'every request has a positive constant part, or its NULL result is not treated as a mere failure', sample=True)
+    chk.floor('R7.7 realloc call paths', n, 2)
+
+
+def fp_is_null(cn, t):
+    from ..failpaths import is_null_assumption
+    return is_null_assumption(cn, t)
